@@ -138,6 +138,7 @@ type Gen struct {
 	loopHeadState map[*ssa.BasicBlock]*State
 	rangeVisited map[*ssa.Range]string
 	frameDone bool
+	abstractMod bool
 	frameNothing bool
 	allocOrder map[*ssa.Alloc]int
 	inputReads []inputRead
